@@ -45,7 +45,9 @@ STOP = [0]
 # long typed lines (used by the random part only): names of 30-60 characters, with and without a character that no
 # choice can contain, long lists, long digit strings
 LONG_ANS = ["Superman_and_Batman_and_Spiderman_and_Aquaman_too!", "a" * 40 + "!", "a," * 30 + "?", "0," * 40 + "0", "9" * 50, "a-b_c" * 12 + " x",
-            ",".join(["a"] * 25) + ";", "b" * 64, "-" * 45 + "."]
+            ",".join(["a"] * 25) + ";", "b" * 64, "-" * 45 + ".",
+            # typed lines that look like style markup or end in a backslash: invalid entries like any other
+            "<fg=zzz>x</>", "</error>", "<b>x", "a\\", "<info>a</info>", "<bg=nosuch>1</>"]
 QTEXT = "QQpick"
 EOF_BUDGET = 12
 
